@@ -55,7 +55,7 @@ impl Ctx {
 }
 
 /// A violation witness.
-#[derive(Clone, Debug)]
+#[derive(Clone, Debug, serde::Serialize, serde::Deserialize)]
 pub struct Violation {
     /// canonical signature `<prop>|<clause>|<predicates>`
     pub signature: String,
@@ -66,7 +66,7 @@ pub struct Violation {
 }
 
 /// Accumulated result of one check run (mergeable across worker threads).
-#[derive(Default, Debug)]
+#[derive(Default, Debug, serde::Serialize, serde::Deserialize)]
 pub struct Outcome {
     pub evaluations: u64,
     pub distinct: BTreeSet<u64>,
